@@ -626,3 +626,148 @@ def uses_of_attribute(model: Model, attr: str) -> List[Tuple[str, ast.AST, str]]
                         role = "compare"
                 out.append((fq, n, role))
     return out
+
+
+# ---------------------------------------------------------------------------------
+# keyed memo in a module-level dict: the key it is read under vs the key it is written under
+# ---------------------------------------------------------------------------------
+
+def _affine(fn: ast.FunctionDef, e: ast.expr, consts: Dict[str, int], depth: int = 0) -> Optional[Dict[str, int]]:
+    """e as  sum(coef * parameter) + constant  ('' = constant term), following single assignments of local names"""
+    if depth > 8:
+        return None
+    if isinstance(e, ast.Constant) and isinstance(e.value, int) and not isinstance(e.value, bool):
+        return {"": e.value}
+    if isinstance(e, ast.Name):
+        params = {a.arg for a in fn.args.args + fn.args.kwonlyargs}
+        defs = [n for n in ast.walk(fn) if isinstance(n, ast.Assign) and any(isinstance(t, ast.Name) and t.id == e.id for t in n.targets)]
+        others = [n for n in ast.walk(fn) if isinstance(n, (ast.AugAssign, ast.For, ast.comprehension, ast.NamedExpr)) and
+                  any(isinstance(x, ast.Name) and x.id == e.id and isinstance(x.ctx, ast.Store) for x in ast.walk(n.target))]
+        if e.id in params and not defs and not others:
+            return {e.id: 1, "": 0}
+        if len(defs) == 1 and not others and e.id not in params:
+            return _affine(fn, defs[0].value, consts, depth + 1)
+        if not defs and not others and e.id in consts:
+            return {"": consts[e.id]}
+        return None
+    if isinstance(e, ast.UnaryOp) and isinstance(e.op, ast.USub):
+        a = _affine(fn, e.operand, consts, depth + 1)
+        return None if a is None else {k: -v for k, v in a.items()}
+    if isinstance(e, ast.BinOp) and isinstance(e.op, (ast.Add, ast.Sub)):
+        a, b = _affine(fn, e.left, consts, depth + 1), _affine(fn, e.right, consts, depth + 1)
+        if a is None or b is None:
+            return None
+        sgn = 1 if isinstance(e.op, ast.Add) else -1
+        out = dict(a)
+        for k, v in b.items():
+            out[k] = out.get(k, 0) + sgn * v
+        return out
+    if isinstance(e, ast.BinOp) and isinstance(e.op, ast.Mult):
+        a, b = _affine(fn, e.left, consts, depth + 1), _affine(fn, e.right, consts, depth + 1)
+        for x, y in ((a, b), (b, a)):
+            if x is not None and y is not None and set(x) <= {""}:
+                return {k: v * x.get("", 0) for k, v in y.items()}
+        return None
+    return None
+
+
+def keyed_memo_key_mismatch(model: Model, consts: Dict[str, int], func: str, var: str) -> Optional[str]:
+    """The function reads the module-level dict `var` under one key and stores into it under another, and the two keys are
+    affine in the parameters and differ by a non-zero constant: an entry remembered for one argument is found by a call with a
+    different one.  Returns the description of the mismatch, or None (keys equal, or not both affine)."""
+    fi = model.funcs.get(func)
+    if fi is None:
+        return None
+    fn = fi.node
+    reads, writes = [], []
+    for n in ast.walk(fn):
+        if isinstance(n, ast.Call) and isinstance(n.func, ast.Attribute) and n.func.attr in ("get", "pop", "setdefault") and isinstance(n.func.value, ast.Name) \
+                and n.func.value.id == var and n.args:
+            reads.append((n.args[0], n.lineno))
+        if isinstance(n, ast.Subscript) and isinstance(n.value, ast.Name) and n.value.id == var and not isinstance(n.slice, ast.Slice):
+            (writes if isinstance(n.ctx, ast.Store) else reads).append((n.slice, n.lineno))
+        if isinstance(n, ast.Compare) and len(n.ops) == 1 and isinstance(n.ops[0], (ast.In, ast.NotIn)) and isinstance(n.comparators[0], ast.Name) \
+                and n.comparators[0].id == var:
+            reads.append((n.left, n.lineno))
+    for rk, rl in reads:
+        a = _affine(fn, rk, consts)
+        if a is None:
+            continue
+        for wk, wl in writes:
+            b = _affine(fn, wk, consts)
+            if b is None:
+                continue
+            d = {k: a.get(k, 0) - b.get(k, 0) for k in set(a) | set(b)}
+            if all(v == 0 for k, v in d.items() if k != "") and d.get("", 0) != 0 and any(v for k, v in a.items() if k != ""):
+                return (f"read under `{core.src(rk)}` (line {rl}) but stored under `{core.src(wk)}` (line {wl}); the two differ by the constant "
+                        f"{-d['']}: what a call stores for one argument is returned to a call with a different argument")
+    return None
+
+
+def _fold_int(e: ast.expr, env: Dict[str, int]) -> Optional[int]:
+    if isinstance(e, ast.Constant):
+        return e.value if isinstance(e.value, int) and not isinstance(e.value, bool) else None
+    if isinstance(e, ast.Name):
+        return env.get(e.id)
+    if isinstance(e, ast.UnaryOp) and isinstance(e.op, (ast.USub, ast.Invert)):
+        v = _fold_int(e.operand, env)
+        return None if v is None else (-v if isinstance(e.op, ast.USub) else ~v)
+    if isinstance(e, ast.BinOp):
+        a, b = _fold_int(e.left, env), _fold_int(e.right, env)
+        if a is None or b is None:
+            return None
+        op = type(e.op)
+        if op is ast.Add:
+            return a + b
+        if op is ast.Sub:
+            return a - b
+        if op is ast.Mult:
+            return a * b
+        if op is ast.FloorDiv and b:
+            return a // b
+        if op is ast.Mod and b:
+            return a % b
+        if op is ast.LShift and 0 <= b <= 256:
+            return a << b
+        if op is ast.RShift and 0 <= b <= 256:
+            return a >> b
+        if op is ast.BitAnd:
+            return a & b
+        if op is ast.BitOr:
+            return a | b
+        if op is ast.BitXor:
+            return a ^ b
+        if op is ast.Pow and 0 <= b <= 256 and abs(a) <= 1 << 16:
+            return a ** b
+    return None
+
+
+def int_constants(model: Model, module: str) -> Dict[str, int]:
+    """integer constants visible in a module: its own `NAME = <int expr>` assignments and those it imports from sibling modules"""
+    out: Dict[str, int] = {}
+    seen = set()
+
+    def load(mod: str, depth: int = 0) -> Dict[str, int]:
+        if mod in seen or depth > 3 or mod not in model.modules:
+            return {}
+        seen.add(mod)
+        vals: Dict[str, int] = {}
+        tree = model.sources.tree(model.modules[mod])
+        pkg = mod.split(".")
+        for n in tree.body:
+            if isinstance(n, ast.ImportFrom) and n.level >= 1 and n.module:
+                target = ".".join(pkg[:len(pkg) - n.level] + n.module.split("."))
+                sub = load(target, depth + 1)
+                for a in n.names:
+                    if a.name in sub:
+                        vals[a.asname or a.name] = sub[a.name]
+            elif isinstance(n, (ast.Assign, ast.AnnAssign)) and n.value is not None:
+                tg = n.targets[0] if isinstance(n, ast.Assign) else n.target
+                if isinstance(tg, ast.Name):
+                    v = _fold_int(n.value, vals)
+                    if v is not None:
+                        vals[tg.id] = v
+        seen.discard(mod)
+        return vals
+    out = load(module)
+    return out
